@@ -141,3 +141,19 @@ def statement_matches(src, pattern, start=0, end=None):
                 if start <= a and b <= end:
                     out.append((a, b))
     return sorted(set(out))
+
+
+def unreplaced(before, after, pattern, goal):
+    """'replaces EACH match': when the goal is not itself an instance of the pattern, no instance may be
+    left after the restructuring (the number of instances before tells how many had to go)"""
+    dummy = re.sub(r"\$\{(\w+)\}", lambda m: "zq_%s" % m.group(1), goal)
+    try:
+        if reference_regions(dummy + "\n", pattern):
+            return "ok", ""  # e.g. a commuted goal: rewritten code matches again
+        had = reference_regions(before, pattern)
+        left = reference_regions(after, pattern)
+    except SyntaxError:
+        return "ok", ""
+    if had and left:
+        return "match_not_replaced", "%d of %d instances of %r are still there after restructuring to %r: %r" % (len(left), len(had), pattern, goal, after)
+    return "ok", ""
